@@ -118,3 +118,56 @@ func waitingPullCurrentPolicy(prop string) func(t *testing.T, st *Stats) {
 		}
 	}
 }
+
+// waitingEmptyPullRestartsExpiry: "every pull, even an empty one, restarts the clock" — a Pull that waits
+// 40 s on an empty subscription (TTL 60 s) and comes back empty restarts it when it *ends*: 30 s later
+// the expiry job must leave the subscription alone.
+func waitingEmptyPullRestartsExpiry(t *testing.T, st *Stats) {
+	what := ""
+	synctest.Test(t, func(t *testing.T) {
+		w := NewWorld(t, Seed())
+		defer w.Close()
+		w.Exec(Op{K: "create_topic", Topic: "t"})
+		w.Exec(Op{K: "create_sub", Sub: "s", Cfg: &SubCfg{Topic: "t", TTL: 60 * Sec, MTTL: 3600 * Sec}})
+		w.Dump()
+		var subID uuid.UUID
+		for _, row := range w.lastSubs {
+			subID = row.ID
+		}
+		a := actions.NewGetSubscriptionMessages(actions.GetSubscriptionMessagesParams{ID: &subID, Name: SubName("s"), MaxMessages: 5, MaxBytes: 1 << 30, MaxWait: 40 * time.Second})
+		start := time.Now()
+		fin := make(chan error, 1)
+		go func() { fin <- a.ExecuteClient(context.Background(), w.Client) }()
+		time.Sleep(41 * time.Second)
+		synctest.Wait()
+		select {
+		case err := <-fin:
+			if err != nil {
+				what = "setup: the waiting pull failed: " + err.Error()
+				return
+			}
+		default:
+			what = "setup: the pull with a 40 s wait has not returned after 41 s"
+			time.Sleep(60 * time.Second)
+			synctest.Wait()
+			return
+		}
+		ended := time.Since(start)
+		time.Sleep(29 * time.Second)
+		r := w.Exec(Op{K: "expire_subs", Max: 5})
+		g := w.Exec(Op{K: "pull", Sub: "s", Max: 1})
+		if r.Resp != "ok:0" || (len(g.Resp) > 0 && g.Resp[0] == 'E') {
+			what = fmt.Sprintf("subscription with an expiration TTL of 60 s; a Pull waited %s on it and came back empty; %s after the pull ended the expiry job answered %s and a Pull is answered %s — the empty pull did not restart the expiry clock when it ended", ended, time.Since(start)-ended, r.Resp, g.Resp)
+		}
+	})
+	st.Count("waiting_empty_pull_cases", 1)
+	if what != "" && (len(what) < 6 || what[:6] != "setup:") {
+		p := ReplayPath(fmt.Sprintf("C14-waiting-empty-pull-%d.json", Seed()))
+		b, _ := json.MarshalIndent(map[string]interface{}{"property": "C14", "sig": "empty-pull-did-not-restart-expiry", "seed": Seed(), "what": what,
+			"history": []string{"subscription s, expiration TTL 60 s, nothing published", "Pull(s) with a 40 s wait: comes back empty after 40 s", "29 s later: expiry job, then Pull(s)"}}, "", " ")
+		os.WriteFile(p, b, 0o644)
+		st.Violate(Violation{What: "[empty-pull-did-not-restart-expiry] " + what, Replay: p, FoundInput: true, Sig: "empty-pull-did-not-restart-expiry"})
+	} else if what != "" {
+		st.Count("waiting_empty_pull_setup_failed", 1)
+	}
+}
